@@ -7,7 +7,7 @@ EXPLANATION = ("R1 path-sensitive extraction of the envelope decoder: on every s
                "test or by a checked conversion -, controls come from the trailing [0] constructed child; R2 every routing-map access and ID release in the driver's response arm is keyed by the ID decoded from that "
                "very response; R3 every reply send in that arm goes to the sender obtained by that lookup and carries only data of the "
                "same decoded message; R4 the protocolOp classification table equals RFC 4511 (4,25 -> Entry; 19 -> Referral; 5 -> Done, "
-               "only Done ends the search); R5 the unmatched branch neither sends nor mutates routing state; R6 registration keys/values "
+               "only Done ends the search); R5 on every path of the response arm a reply send, a registration or an ID release comes after a lookup of the decoded ID that found an operation (a message nobody waits for reaches nobody and changes nothing); R6 registration keys/values "
                "in the request arm; R7 the request tuple carries the allocated ID and the reply channel that is awaited; R8 only the driver "
                "loop and the constructor touch the routing maps; R9 a single task forwards items in decode order (no spawn, FIFO channel types).")
 TRUSTED = ['tokio mpsc/oneshot channels are FIFO and single-consumer', 'tokio_util Framed calls the decoder on the bytes in order']
@@ -271,6 +271,7 @@ def run(ctx):
             if id(node) not in r5_sites:
                 r5_sites[id(node)] = (node, [])
             r5_sites[id(node)][1].append(driver.found_before(C, o, i, driver.DECODED_ID))
+    ctx.floor('R5', 'reply sends / registrations / ID releases of the response arm', len(r5_sites), 3)
     for n, verdicts in r5_sites.values():
         if not verdicts:
             ctx.add('R5.only-under-successful-lookup', n.get('name') or n['k'], loc(n), driver.never_taken(L, r5_I, n),
